@@ -67,7 +67,7 @@ def parseBundle (seg : String) : Option BR :=
     (parseEntries loc ents).bind fun es =>
       let dup := brk == "1" || brk == "3"
       let es := if dup then es ++ [("dup", { value := some (plain ("P " ++ loc ++ " dup")), attrs := [] })] else es
-      let b : B := { locales := if loc == "_" then [] else [loc], getMessage := lookupMsg es }
+      let b : B := { locales := if loc == "_" then [] else loc.splitOn "+", getMessage := lookupMsg es }
       match brk with
       | "0" => some (.ok b)
       | "1" => some (.broken b ["Overriding.message.dup"])
